@@ -102,7 +102,11 @@ func buildTargets(c *fw.Ctx) []*target {
 			}
 			out = append(out, &target{name: name, udp: udp, slow: gt.Slow, seeds: gt.Seeds, matcher: gt.Matcher, config: gt.Config,
 				call: func(in []byte) (string, error) {
-					v, err := m.Eval(in, mt.Opts{UDP: udp})
+					// evaluated twice in a row on one connection, as the routing loop does when a second route holds a
+					// matcher of the same kind or when matching is repeated after a prefetch: neither call may panic
+					cx, _ := mt.NewConn(in, mt.Opts{UDP: udp})
+					v, err := m.EvalOn(cx)
+					_, _ = m.EvalOn(cx)
 					return string(v), err
 				}})
 		}
